@@ -199,30 +199,70 @@ var refsearchCaptures = func(ctx context.Context, b *board.Board) (board.MovePri
 	return search.MVVLVA, func(m board.Move) bool { return m.IsCaptureOrEnPassant() }
 }
 
-// gateEval wraps an evaluator: it counts calls and can hold the k-th call until released.
+// gateEval wraps an evaluator: it counts calls and can hold one chosen call until released.
+// It can be re-armed for successive searches of one engine.
 type gateEval struct {
 	inner   eval.Evaluator
 	calls   atomic.Int64
-	blockAt atomic.Int64 // 0 = never
+	blockAt atomic.Int64 // absolute call number to hold; 0 = none
+
+	mu      sync.Mutex
 	blocked chan struct{}
 	release chan struct{}
-	once    sync.Once
+	opened  bool
 }
 
 func newGate(inner eval.Evaluator) *gateEval {
 	return &gateEval{inner: inner, blocked: make(chan struct{}), release: make(chan struct{})}
 }
 
+// arm makes the gate hold the k-th evaluation from now on (k >= 1). Returns the channel that is
+// closed when the search goroutine is parked there.
+func (g *gateEval) arm(k int64) <-chan struct{} {
+	g.mu.Lock()
+	defer g.mu.Unlock()
+	g.blocked, g.release, g.opened = make(chan struct{}), make(chan struct{}), false
+	g.blockAt.Store(g.calls.Load() + k)
+	return g.blocked
+}
+
 func (g *gateEval) Evaluate(ctx context.Context, b *board.Board) eval.Pawns {
 	n := g.calls.Add(1)
 	if k := g.blockAt.Load(); k > 0 && n == k {
-		close(g.blocked)
-		<-g.release
+		g.mu.Lock()
+		blocked, release := g.blocked, g.release
+		g.mu.Unlock()
+		close(blocked)
+		<-release
 	}
 	return g.inner.Evaluate(ctx, b)
 }
 
-func (g *gateEval) open() { g.once.Do(func() { close(g.release) }) }
+// open releases a parked evaluation (and disarms the gate). Idempotent.
+func (g *gateEval) open() {
+	g.mu.Lock()
+	defer g.mu.Unlock()
+	g.blockAt.Store(0)
+	if !g.opened {
+		g.opened = true
+		close(g.release)
+	}
+}
+
+// isBlocked reports whether the search goroutine is parked at the gate right now.
+func (g *gateEval) isBlocked() bool {
+	g.mu.Lock()
+	defer g.mu.Unlock()
+	if g.opened {
+		return false
+	}
+	select {
+	case <-g.blocked:
+		return true
+	default:
+		return false
+	}
+}
 
 // asyncHalt launches the real iterative-deepening harness, halts it asynchronously while the search
 // goroutine is held inside an evaluation, and checks board, table and follow-up search.
